@@ -2431,3 +2431,137 @@ func ruleXMLObjectTotal(r *Run) {
 	}
 	r.Min("section_xml_objects_written", n, 3)
 }
+
+// ---------------------------------------------------------------------------
+// R-ITEM-CONFIG-FLOW (C15): every item of a multi-level list carries its own type, symbol, level
+// and start value.  In a loop over []ListItem the numbering for an item must be obtained from a
+// configuration built from THAT item on every iteration: each path through the loop body passes a
+// call that (transitively) reaches getOrCreateNumbering.  A per-call cache keyed by some of the
+// fields lets later items inherit the definition of the first one.
+// ---------------------------------------------------------------------------
+
+func ruleItemConfigFlow(r *Run) {
+	p := r.P
+	target := r.mustFunc(pkgDoc, "(*Document).getOrCreateNumbering")
+	if target == nil {
+		return
+	}
+	reaches := func(cal *ssa.Function) bool {
+		return cal == target || (cal != nil && p.inModule(cal) && p.staticReach(cal)[target])
+	}
+	n := 0
+	for _, fn := range p.ModFuncs() {
+		if fn.Pkg == nil || fn.Pkg.Pkg.Path() != pkgDoc || fn.Parent() != nil {
+			continue
+		}
+		for li, l := range naturalLoops(fn) {
+			ri := rangeOf(l)
+			if ri == nil {
+				continue
+			}
+			st, ok := ri.X.Type().Underlying().(*types.Slice)
+			if !ok || !typeIs(st.Elem(), pkgDoc, "ListItem") {
+				continue
+			}
+			n++
+			cut := map[*ssa.BasicBlock]bool{}
+			for b := range l.Body {
+				for _, in := range b.Instrs {
+					if c, ok := in.(ssa.CallInstruction); ok && reaches(staticCallee(c)) {
+						cut[b] = true
+					}
+				}
+			}
+			iff := l.Header.Instrs[len(l.Header.Instrs)-1].(*ssa.If)
+			body := iff.Block().Succs[0]
+			if !l.Body[body] {
+				body = iff.Block().Succs[1]
+			}
+			okc := len(cut) > 0 && (cut[body] || !reachableBlocks(body, cut)[l.Header])
+			r.Check("item-config-flow", fmt.Sprintf("%s:loop#%d", shortName(fn), li), l.Header.Instrs[0].Pos(), okc,
+				fmt.Sprintf("%s iterates list items; %s", shortName(fn), map[bool]string{true: "every iteration obtains the item's numbering from the item's own configuration", false: "some iteration can finish without asking for a numbering built from that item's configuration (e.g. a cache keyed by type and level only): an item with another bullet symbol or start value silently gets the earlier item's definition"}[okc]))
+		}
+	}
+	r.Min("list_item_loops", n, 1)
+}
+
+// ---------------------------------------------------------------------------
+// R-ITER-PROGRESS (C06): `for it.HasNext() { x, err := it.Next(); … }` terminates only if every
+// turn advances the iterator.  When Next fails WITHOUT having changed the iterator (its stores to
+// the receiver never precede a failure return), a loop that does not leave on that error spins
+// for ever on the same position — an opened table with a short row is enough.
+// ---------------------------------------------------------------------------
+
+func ruleIterProgress(r *Run) {
+	p := r.P
+	ms := newMutSummary(p, false)
+	n := 0
+	for _, fn := range p.ModFuncs() {
+		if fn.Pkg == nil || fn.Pkg.Pkg.Path() != pkgDoc {
+			continue
+		}
+		for li, l := range naturalLoops(fn) {
+			if len(l.Header.Instrs) == 0 {
+				continue
+			}
+			iff, ok := l.Header.Instrs[len(l.Header.Instrs)-1].(*ssa.If)
+			if !ok {
+				continue
+			}
+			hc, ok := iff.Cond.(*ssa.Call)
+			if !ok || len(hc.Call.Args) == 0 {
+				continue
+			}
+			cond := staticCallee(hc)
+			if cond == nil || !p.inModule(cond) || cond.Signature.Recv() == nil {
+				continue
+			}
+			recv := hc.Call.Args[0]
+			for b := range l.Body {
+				for _, in := range b.Instrs {
+					c, ok := in.(*ssa.Call)
+					if !ok || len(c.Call.Args) == 0 || c.Call.Args[0] != recv {
+						continue
+					}
+					adv := staticCallee(c)
+					if adv == nil || adv == cond || !p.inModule(adv) || errorResultIndex(adv.Signature) < 0 {
+						continue
+					}
+					// does a failed call leave the receiver unchanged?
+					stuck := true
+					fails := failureReturns(adv)
+					for _, w := range receiverWrites(p, ms, adv, 0) {
+						for _, ret := range fails {
+							if w.Block() == ret.Block() && instrIndex(w) < instrIndex(ret) || w.Block() != ret.Block() && blockReaches(w.Block(), ret.Block()) {
+								stuck = false
+							}
+						}
+					}
+					if !stuck || len(fails) == 0 {
+						continue
+					}
+					n++
+					// the non-nil branch of its error must leave the loop
+					exits := false
+					ev := errValueOf(c)
+					if ev != nil {
+						nilTests(fn, ev, func(tb, nilS, nonNilS *ssa.BasicBlock) {
+							back := false
+							for rb := range reachableBlocks(nonNilS, map[*ssa.BasicBlock]bool{nilS: true}) {
+								if rb == l.Header {
+									back = true
+								}
+							}
+							if !back {
+								exits = true
+							}
+						})
+					}
+					r.Check("iter-progress", fmt.Sprintf("%s:loop#%d", shortName(fn), li), c.Pos(), exits,
+						fmt.Sprintf("%s loops while %s and advances with %s, which changes nothing when it fails; the loop %s", shortName(fn), shortName(cond), shortName(adv), map[bool]string{true: "is left when it fails", false: "continues after a failure, so it repeats the same failing call for ever (a row shorter than the first one of an opened table triggers it)"}[exits]))
+				}
+			}
+		}
+	}
+	r.Min("iterator_loops", n, 1)
+}
